@@ -70,7 +70,7 @@ pub fn check_container<K: Kmer, V: Vmer>(name: &str, v: &V, model: &[u8], bexts:
     for i in 0..nk {
         expect(&format!("get_kmer({})", i), v.get_kmer::<K>(i), &model[i..i + k]).map_err(ctx)?;
     }
-    let it: Vec<K> = v.iter_kmers::<K>().collect();
+    let it: Vec<K> = v.iter_kmers::<K>().take(nk + 8).collect();
     if it.len() != nk {
         return Err(ctx(format!("iter_kmers yields {} items, want {}", it.len(), nk)));
     }
@@ -86,7 +86,7 @@ pub fn check_container<K: Kmer, V: Vmer>(name: &str, v: &V, model: &[u8], bexts:
         expect("both_term_kmer.0", a, &model[..k]).map_err(ctx)?;
         expect("both_term_kmer.1", b, &model[n - k..]).map_err(ctx)?;
     }
-    let ex: Vec<(K, Exts)> = v.iter_kmer_exts::<K>(Exts::new(bexts)).collect();
+    let ex: Vec<(K, Exts)> = v.iter_kmer_exts::<K>(Exts::new(bexts)).take(nk + 8).collect();
     if ex.len() != nk {
         return Err(ctx(format!("iter_kmer_exts yields {} items, want {}", ex.len(), nk)));
     }
